@@ -4,7 +4,7 @@ CHECK_DEADLOCK FALSE
 INVARIANTS OracleOK
 CONSTANTS
   MaxOps = 2
-  Fams = {"F1", "F2", "FM", "multi"}
+  Fams = {"F1", "F2", "FM", "multi", "forms"}
   Valuations <- ValQ
   MaxList = 2
   SimFam = "FM"
